@@ -17,7 +17,9 @@ import (
 	"path/filepath"
 	"regexp"
 	"runtime"
+	"sort"
 	"strings"
+	"time"
 
 	"github.com/magisterquis/curlrevshell/lib/opshell"
 	"github.com/magisterquis/curlrevshell/verifx/ev"
@@ -190,6 +192,76 @@ func c02InsertRun(capPath string, n int) (viols []seamViol, err error) {
 	return viols, nil
 }
 
+// c02TypedRun pastes n lines into the terminal in one go and checks that they
+// enter the input channel once each, in the order typed.
+func c02TypedRun(capPath string, n int) (viols []seamViol, err error) {
+	ts, err := newTermSessionOpts(capPath, true, nil, false)
+	if nil != err {
+		return nil, err
+	}
+	defer ts.close()
+	quiesce.Wait()
+	var (
+		want  []string
+		paste strings.Builder
+	)
+	for i := 0; i < n; i++ {
+		l := fmt.Sprintf("typed line %03d with \"quotes\" and a trailing blank ", i)
+		want = append(want, l)
+		paste.WriteString(l + "\r")
+	}
+	ts.stdinW.Write([]byte(paste.String()))
+	/* The Shell reads its terminal in a blocking read, which looks
+	quiescent from outside: wait for the entries themselves (the watchdog
+	only ends a run in which some never come). */
+	var got []string
+	watchdog := time.After(20 * time.Second)
+collect:
+	for len(got) < n {
+		select {
+		case l := <-ts.ich:
+			got = append(got, l)
+		case <-watchdog:
+			break collect
+		}
+	}
+	quiesce.Wait()
+	for more := true; more; {
+		select {
+		case l := <-ts.ich:
+			got = append(got, l)
+		default:
+			more = false
+		}
+	}
+	cs := fmt.Sprintf("typed:%d", n)
+	if strings.Join(got, "\n") != strings.Join(want, "\n") {
+		sig := "typed-lines-changed"
+		switch {
+		case len(got) < len(want):
+			sig = "typed-lines-lost"
+		case len(got) == len(want):
+			a, b := append([]string{}, got...), append([]string{}, want...)
+			sort.Strings(a)
+			sort.Strings(b)
+			if strings.Join(a, "\n") == strings.Join(b, "\n") {
+				sig = "typed-lines-reordered"
+			}
+		}
+		viols = append(viols, seamViol{Sig: sig, What: fmt.Sprintf("%d lines pasted into the terminal entered the input channel as %d entries, first difference at %d (got %q)", n, len(got), firstDiffLines(got, want), trunc80(strings.Join(got, "|"))), Case: cs})
+	}
+	return viols, nil
+}
+
+func firstDiffLines(a, b []string) int {
+	for i := range a {
+		if i >= len(b) || a[i] != b[i] {
+			return i
+		}
+	}
+	return len(a)
+}
+
 // termSeamWorker: termseam <c03|c02> <maxlen> <scratch>
 func termSeamWorker(args []string) int {
 	runtime.GOMAXPROCS(1)
@@ -258,6 +330,17 @@ func termSeamWorker(args []string) int {
 			}
 		}
 	case "c02":
+		/* Lines typed (or pasted) on the terminal: every burst size, the
+		whole burst handed to the Shell in one write. */
+		for _, n := range []int{1, 2, 3, 8, 24, 100} {
+			vs, err := c02TypedRun(capPath, n)
+			if nil != err {
+				res.Err = err.Error()
+				break
+			}
+			res.Execs++
+			add(vs)
+		}
 		for _, n := range []int{0, 1, 27, 4096, 32767, 32768, 32769, 65536, 65537, 100000, 1 << 20} {
 			vs, err := c02InsertRun(capPath, n)
 			if nil != err {
